@@ -21,6 +21,9 @@ MIRDIR = os.path.join(WORK, "mir")
 
 def dump_mir():
     os.makedirs(MIRDIR, exist_ok=True)
+    import fcntl
+    lock = open(os.path.join(MIRDIR, "main.lock"), "w")
+    fcntl.flock(lock, fcntl.LOCK_EX)   # C15, C16 and C17 may ask for the dump at the same time
     tgt = os.path.join(MIRDIR, "target")
     fp = os.path.join(tgt, "debug", ".fingerprint")
     if os.path.isdir(fp):
